@@ -26,4 +26,67 @@ def defaultMinAnchors : Nat := 3
 def defaultMaxIterations : Nat := 10
 def defaultQuantiles : List (Int × Nat) := [((1 : Int), (4 : Nat)), ((3 : Int), (4 : Nat))]
 def defaultThreshold : Int × Nat := ((3 : Int), (2 : Nat))
+/-- constructor parameters (the adapter passes them positionally) and `attr := _expand_dims(param, n)`. -/
+def ctorParams : List String := ["center_translation", "rotation", "target_translation"]
+def ctorStores : List (String × String × Nat) := [("center_translation", "center_translation", 2), ("rotation", "rotation", 3), ("target_translation", "target_translation", 2)]
+def expandDims : String := "prepend-axes-while-ndim<n"
+/-- `apply`: `if mobile_coord.shape[0] <cmp> self.<attr>.shape[0]: raise <exc>`; works on a copy; reshapes back. -/
+def applyGuard : List String := ["NotEq", "rotation", "IndexError"]
+def applyCopiesInput : Bool := true
+def applyReshapesBack : Bool := true
+def applyInput : List String := ["coord(atoms)", "_reshape_to_3d(mobile_coord)"]
+/-- `_reshape_to_3d`: the tests on `coord.ndim` in order. -/
+def reshapeLadder : List String := ["Lt 2 raise:ValueError", "Eq 2 returncoord[np.newaxis,...]", "Eq 3 returncoord", "else raise:ValueError"]
+/-- `as_matrix`: identity size, source of the model count; `_3d_identity`: dtype of the zeros, diagonal value 1. -/
+def matrixSize : Nat := 4
+def matrixCount : String := "self.rotation.shape[0]"
+def identityDtype : String := "np.float32"
+/-- `superimpose`: signature, mask application, what the centroids are taken of, centring, rotation arguments, result. -/
+def supParams : List String := ["fixed", "mobile", "atom_mask"]
+def supDefaults : List (String × String) := [("atom_mask", "None")]
+def supMaskSlice : String := "[:,atom_mask,:]"
+def supCentroidOf : List String := ["filtered-fixed", "filtered-mobile"]
+def supCentred : List String := ["fixed", "mobile"]
+def supRotationArgs : List String := ["fixed", "mobile"]
+def supReturn : String := "(transform.apply(mobile),transform)"
+/-- `_get_rotation_matrices(fixed, mobile)`: `cov = np.sum(p0[..newaxis@i] * p1[..newaxis@j], axis=k)` handed directly to svd. -/
+def rotParams : List String := ["fixed", "mobile"]
+def covFactors : List String := ["0@3", "1@2"]
+def covAxis : Int := 1
+def covDirectlyToSvd : Bool := true
+def multiMatmul : String := "transpose(matmul(matrices, transpose(vectors,(0,2,1))),(0,2,1))"
+/-- `superimpose_without_outliers`: signature, first guard, loop, squared distance, mean over models, quantiles, bound, exits, result. -/
+def wooParams : List String := ["fixed", "mobile", "min_anchors", "max_iterations", "quantiles", "outlier_threshold"]
+def wooFirstGuard : List String := ["max_iterations<1", "ValueError"]
+def wooQuantilePrep : String := "sorted(quantiles)"
+def wooInitialMask : String := "np.ones(coord(fixed).shape[-2],dtype=bool)"
+def wooLoop : String := "range(max_iterations)"
+def wooInnerFit : List String := ["coord(fixed)", "coord(mobile)"]
+def wooSqDist : List String := ["distance", "coord(fixed)", "superimposed", "**2"]
+def wooMeanOverModels : List String := ["Eq", "2", "np.mean", "axis=0"]
+def wooQuantileCall : List String := ["SQ_DIST", "quantiles"]
+def wooIprIsSecondMinusFirst : Bool := true
+def wooBreaks : List String := ["all", "min_anchors"]
+def wooReturn : String := "(transform.apply(mobile),transform,anchor_indices)"
+/-- `superimpose_homologs`: signature + defaults, raising guards in order, fallback test, alignment columns, forwarded arguments. -/
+def homParams : List String := ["fixed", "mobile", "substitution_matrix", "gap_penalty", "min_anchors", "terminal_penalty", "**kwargs"]
+def homDefaults : List (String × String) := [("substitution_matrix", "None"), ("gap_penalty", "-10"), ("min_anchors", "3"), ("terminal_penalty", "False")]
+def homGuards : List String := ["Or:len(BACKBONE_fixed) Lt min_anchors,len(BACKBONE_mobile) Lt min_anchors:ValueError", "len(BACKBONE_fixed) NotEq len(BACKBONE_mobile):ValueError"]
+def homFallbackTest : List String := ["len(MATCHED)", "Lt", "min_anchors"]
+def homColumns : List (String × String) := [("BACKBONE_fixed", "MATCHED[:,0]"), ("BACKBONE_mobile", "MATCHED[:,1]")]
+def homWooArgs : List String := ["min_anchors", "**kwargs"]
+def backboneAtoms : List String := ["filter_amino_acids:CA", "filter_nucleotides:P"]
+/-- `_find_matching_anchors`: column c of the anchors is offset by a counter advanced by the length of the sequence
+    of zip position p (`c<-p`), counters start at 0, zip is strict, only positively scoring columns, one alignment. -/
+def anchorOffsetIncrements : List String := ["0<-0", "1<-1"]
+def anchorOffsetStart : List Int := [0, 0]
+def chainZip : List String := ["strict=True"]
+def scoreFilter : List String := ["Gt", "0"]
+def alignKeywords : List String := ["max_number=1", "terminal_penalty=terminal_penalty"]
+def alignArgs : List String := ["0", "1", "substitution_matrix", "gap_penalty"]
+/-- `rmsd`, `_sq_euclidian` (compare.py) and `centroid` (geometry.py). -/
+def rmsdExpr : String := "np.sqrt(np.mean(_sq_euclidian(reference,subject),axis=-1))"
+def sqEuclidGuard : List String := ["coord(reference).ndim!=2", "TypeError"]
+def sqEuclidDiff : String := "coord(subject)-coord(reference)"
+def centroidExpr : String := "np.mean(coord(atoms),axis=-2)"
 end BiotiteModel.Gen.C16
